@@ -61,6 +61,8 @@ def lemma_at(path: Path, out: str) -> str:
 
 
 def static_tie(ctx, rd: Path, groups=tuple(GROUPS)):
+    import time
+    t_start = time.time()
     groups = list(groups)
     ctx.trusted.append(TRUSTED)
     XQ = [(rd, "CijGen")]
@@ -112,5 +114,6 @@ def static_tie(ctx, rd: Path, groups=tuple(GROUPS)):
             m = re.match(r"static tie \[([\w-]+)\]", o["name"])
             if m and not o["ok"]:
                 det[m.group(1)] = o["detail"][:600]
+    ctx.extra["static_tie_evec_seconds"] = round(time.time() - t_start, 2)
     ctx.extra["static_tie_failed_groups"] = sorted(set(ctx.extra.get("static_tie_failed_groups", [])) | set(failed))
     return failed
